@@ -18,6 +18,15 @@ import (
 
 const hole = "⟦F⟧"
 
+type c05CodedError interface {
+	error
+	Code() int
+}
+
+type c05Coded struct{ error }
+
+func (c c05Coded) Code() int { return 7 }
+
 // expression-level skeletons: the hole and the whole are expressions.
 func c05ExprSkels() []struct{ name, s string } {
 	out := []struct{ name, s string }{
@@ -132,6 +141,12 @@ func c05Ctx(env *c05Env) *plush.Context {
 		env.calls++
 		return nil, env.sentinel
 	})
+	// the last result is declared as an interface that embeds error, not as error itself
+	ctx.Set("failc", func(id string) (string, c05CodedError) {
+		env.calls++
+		env.sentinel = c05Coded{env.sentinel}
+		return "result-of-the-failed-call", env.sentinel.(c05CodedError)
+	})
 	ctx.Set("failunk", func(id string) (interface{}, error) {
 		env.calls++
 		env.sentinel = &plush.ErrUnknownIdentifier{ID: "fromHelper"}
@@ -191,6 +206,7 @@ var c05Faults = []struct {
 	sentinel   bool // errors.Is(err, sentinel) is demanded
 }{
 	{"fail-helper", `fail("p")`, true},
+	{"fail-helper-error-declared-as-wider-interface", `failc("p")`, true},
 	{"div-by-zero", `(1 / zero("p"))`, false},
 	{"index-out-of-range", `xs[big("p")]`, false},
 	{"type-mismatch", `(val("p", 1) - "a")`, false},
